@@ -55,12 +55,12 @@ func cmdCheck(args []string) int {
 	fs.IntVar(&cfg.timeout, "timeout", 0, "per-obligation timeout (s)")
 	fs.BoolVar(&cfg.keep, "keep", false, "keep SMT files")
 	fs.BoolVar(&cfg.updateBaseline, "update-baseline", false, "record proved obligations into the baseline")
-	fs.IntVar(&cfg.workers, "j", 14, "parallel solver jobs")
+	fs.IntVar(&cfg.workers, "j", 12, "parallel solver jobs")
 	fs.Parse(args)
 	if cfg.timeout == 0 {
-		cfg.timeout = 20
+		cfg.timeout = 30
 		if cfg.tier == "thorough" {
-			cfg.timeout = 120
+			cfg.timeout = 180
 		}
 	}
 	if s := os.Getenv("VERIF_SEED"); s != "" && cfg.seed == 0 {
@@ -165,6 +165,18 @@ func runCheck(cfg *config) int {
 	if err := cs.finish(); err != nil {
 		fmt.Println("MACHINERY-ERROR", err)
 		return 2
+	}
+	if cfg.tier != "thorough" {
+		// clauses tagged @thorough are dropped from the quick tier (they are assumed nowhere and claimed nowhere)
+		for _, c := range cs.All {
+			var keep []*Clause
+			for _, cl := range c.Clauses {
+				if !cl.Thorough {
+					keep = append(keep, cl)
+				}
+			}
+			c.Clauses = keep
+		}
 	}
 	// which contracts serve the property?
 	var targets []*Contract
